@@ -307,11 +307,12 @@ def _stmt(n, ch, ctx, force_end=False):
         if sh == 'wc':
             key, cnt = ops
             kt = _value(key, ch, allow_d=False)
-            # unsigned decimal key form
-            if key and key[0] != 0 and len(key) <= 6 and ch(4, 'values') == 3:
-                kt = 'd%d' % int.from_bytes(key, 'big')
-            elif key == b'\x00' and ch(4, 'values') == 3:
-                kt = 'd0'
+            # decimal key form: like every other d value, the key is the VM encoding of the integer (the parser of this
+            # instruction accepts non-negative decimals only)
+            if 0 < len(key) <= 6 and ch(4, 'values') == 3:
+                n = int.from_bytes(key, 'big', signed=True)
+                if n >= 0 and _min_signed(n) == key:
+                    kt = 'd%d' % n
             return nm + ' ' + kt + ' ' + _u8(cnt, ch, signed_dec=False)
         if sh == 'f4':
             v = ops[0]
